@@ -38,6 +38,18 @@ ENGINES += [
      "insert": [["not", False, "isnt", "prefix", False]], "remove": []},
 ]
 
+# factory.operators is a public list: hosts also edit it directly.  These factories hand out one engine first, are then
+# edited in place (rows removed / appended by hand) and asked for another engine, which is the one under test.
+ENGINES += [
+    {"label": "created, then `in` and `mod` removed from factory.operators", "base": "default", "keyword_operator": "=>",
+     "insert": [], "remove": [], "post_create_remove": ["in", "mod"], "post_create_append": []},
+    {"label": "created, then `=~` `?.` `not` removed from factory.operators", "base": "default", "keyword_operator": "=>",
+     "insert": [], "remove": [], "post_create_remove": ["=~", "?.", "not"], "post_create_append": []},
+    {"label": "created, then rows `otherwise` and `<>` appended to factory.operators", "base": "default", "keyword_operator": "=>",
+     "insert": [["in", True, "contains", "binary", False]], "remove": [], "post_create_remove": ["contains"],
+     "post_create_append": [["otherwise", "binary"], ["<>", "binary"]]},
+]
+
 PLAIN_WORDS = ["a", "abc", "x1", "_x", "True", "nul", "inn", "And", "containss", "résumé", "x__y"]
 
 
@@ -47,13 +59,18 @@ def word_ops(spec):
         ops.pop(w, None)
     for _, _, w, kind, _ in spec["insert"]:
         ops[w] = "binary" if kind.startswith("binary") else kind
+    for w in spec.get("post_create_remove", []):
+        ops.pop(w, None)
+    for w, kind in spec.get("post_create_append", []):
+        if w.isidentifier():
+            ops[w] = "binary" if kind.startswith("binary") else kind
     return ops
 
 
 def pool(specs, extra=()):
     words = []
     for s in specs:
-        for w in list(word_ops(s)) + s["remove"]:
+        for w in list(word_ops(s)) + s["remove"] + [x for x in s.get("post_create_remove", []) if x.isidentifier()]:
             if w not in words:
                 words.append(w)
     for w in list(DEFAULT_WORD_OPS) + list(JSON_WORDS) + PLAIN_WORDS + list(extra):
@@ -76,6 +93,14 @@ def build(spec):
         f.operators = [op for op in f.operators if not op or op[0] not in spec["remove"]]
     for existing, is_binary, word, kind, group in spec["insert"]:
         f.insert_operator(existing, is_binary, word, kinds[kind], group)
+    if spec.get("post_create_remove") or spec.get("post_create_append"):
+        f.create()                                  # an engine is handed out first ...
+        for sym in spec.get("post_create_remove", []):
+            for row in [r for r in f.operators if r and r[0] == sym]:
+                f.operators.remove(row)              # ... then the public list is edited in place
+        for sym, kind in spec.get("post_create_append", []):
+            f.operators.append(())
+            f.operators.append((sym, kinds[kind]))
     return f.create()
 
 
@@ -128,6 +153,12 @@ def expectations(spec, words):
             out.append((w, ["keyword", w]))                # any other word denotes its own text
             out.append(("[%s, 1]" % w, ["list", ["keyword", w], ["constant", "int", 1]]))
         out.append(("'%s'" % w, ["constant", "str", w]))   # strings and numbers are never affected
+    for sym in spec.get("post_create_remove", []):
+        if not sym.isidentifier():
+            out.append(("p %s q" % sym, ["lexical-error"]))   # the symbol is not a token of this engine any more
+    for sym, kind in spec.get("post_create_append", []):
+        if not sym.isidentifier():
+            out.append(("p %s q" % sym, ["BinaryOperator", sym, ["keyword", "p"], ["keyword", "q"]]))
     out.append(("12", ["constant", "int", 12]))
     out.append(("1.5", ["constant", "float", (1.5).hex()]))
     out.append(('"in"', ["constant", "str", "in"]))
